@@ -62,6 +62,7 @@ func c13IOFSList(kind, pid string) string {
 	base := afero.NewMemMapFs()
 	build(base, "")
 	var src afero.Fs = base
+	var inner *regexp.Regexp
 	switch kind {
 	case "mem":
 	case "cow-base":
@@ -83,6 +84,9 @@ func c13IOFSList(kind, pid string) string {
 		src = afero.NewBasePathFs(b2, "/jail")
 	case "ro":
 		src = afero.NewReadOnlyFs(base)
+	case "re-x", "re-txt", "re-a": // a filter stacked on a filter: a name must pass both
+		inner = c13Patterns[strings.TrimPrefix(kind, "re-")]
+		src = afero.NewRegexpFs(base, inner)
 	default:
 		return "bad-op"
 	}
@@ -100,7 +104,7 @@ func c13IOFSList(kind, pid string) string {
 			rest := strings.TrimPrefix(f, pre)
 			if i := strings.Index(rest, "/"); i >= 0 {
 				seen[rest[:i]] = true // a directory: never hidden
-			} else if re.MatchString(f) {
+			} else if re.MatchString(f) && (inner == nil || inner.MatchString(f)) {
 				seen[rest] = true
 			}
 		}
@@ -162,13 +166,70 @@ func c13IOFSList(kind, pid string) string {
 	sort.Strings(walked)
 	var wantFiles []string
 	for _, f := range files {
-		if re.MatchString(f) {
+		if re.MatchString(f) && (inner == nil || inner.MatchString(f)) {
 			wantFiles = append(wantFiles, f)
 		}
 	}
 	sort.Strings(wantFiles)
 	if strings.Join(walked, ",") != strings.Join(wantFiles, ",") {
 		return fmt.Sprintf("fail: fs.WalkDir over %s visits the files %v, the matching files are %v", kind, walked, wantFiles)
+	}
+	return "ok"
+}
+
+// c13HandleStatOS: a handle obtained through the filter reports the metadata the source's own handle reports — also
+// later, after the file has grown and its mode has changed (on the operating system's file system a FileInfo is a
+// snapshot, so an answer remembered from the time of Open shows).
+func c13HandleStatOS(pid string) string {
+	re := c13Patterns[pid]
+	dir, err := os.MkdirTemp("", "verif-c13os-")
+	if err != nil {
+		return "fail: " + err.Error()
+	}
+	defer os.RemoveAll(dir)
+	name := ""
+	for _, n := range []string{"a.txt", "ax", "abc", "ax.txt"} {
+		if re.MatchString(filepath.Join(dir, n)) {
+			name = filepath.Join(dir, n)
+			break
+		}
+	}
+	if name == "" {
+		return "skipped: no candidate name matches"
+	}
+	os.WriteFile(name, []byte("12345"), 0o644)
+	osfs := afero.NewOsFs()
+	fs := afero.NewRegexpFs(osfs, re)
+	for _, how := range []string{"open", "openfile"} {
+		os.WriteFile(name, []byte("12345"), 0o644)
+		os.Chmod(name, 0o644)
+		var f, ref afero.File
+		if how == "open" {
+			f, err = fs.Open(name)
+			ref, _ = osfs.Open(name)
+		} else {
+			f, err = fs.OpenFile(name, os.O_RDONLY, 0)
+			ref, _ = osfs.OpenFile(name, os.O_RDONLY, 0)
+		}
+		if err != nil {
+			return fmt.Sprintf("fail: %s of a matching file through the filter: %v", how, err)
+		}
+		describe := func(x afero.File) string {
+			fi, err := x.Stat()
+			if err != nil {
+				return "err:" + ErrClass(err)
+			}
+			return fmt.Sprintf("%s size=%d mode=%v", fi.Name(), fi.Size(), fi.Mode())
+		}
+		a0, b0 := describe(f), describe(ref)
+		os.WriteFile(name, []byte("1234567890"), 0o644)
+		os.Chmod(name, 0o600)
+		a1, b1 := describe(f), describe(ref)
+		f.Close()
+		ref.Close()
+		if a0 != b0 || a1 != b1 {
+			return fmt.Sprintf("fail: handle from %s through the filter reports [%s], then [%s]; the source's own handle reports [%s], then [%s]", how, a0, a1, b0, b1)
+		}
 	}
 	return "ok"
 }
@@ -186,6 +247,8 @@ func c13RunImpl(c corr.Case) []string {
 			switch {
 			case t[0] == "iofs-list":
 				return c13IOFSList(t[1], t[2])
+			case t[0] == "hstat-os":
+				return c13HandleStatOS(t[1])
 			case t[0] == "case":
 				src = afero.NewMemMapFs()
 				re = c13Patterns[t[2]]
@@ -323,7 +386,7 @@ func c13RunImpl(c corr.Case) []string {
 
 func c13Oracle(c corr.Case, impl []string) (string, int) {
 	for i, line := range c.Lines {
-		if strings.HasPrefix(line, "iofs-list") && strings.HasPrefix(impl[i], "fail") {
+		if (strings.HasPrefix(line, "iofs-list") || strings.HasPrefix(line, "hstat-os")) && strings.HasPrefix(impl[i], "fail") {
 			return impl[i], i
 		}
 	}
@@ -412,9 +475,10 @@ func c13Exhaustive(tier string) []corr.Case {
 		// through the io/fs adapter, over sources whose directory handles are of different kinds
 		{
 			l := []string{"case re " + pid}
-			for _, k := range []string{"mem", "cow-base", "cow-both", "cache", "bp", "ro"} {
+			for _, k := range []string{"mem", "cow-base", "cow-both", "cache", "bp", "ro", "re-x", "re-txt", "re-a"} {
 				l = append(l, "iofs-list "+k+" "+pid)
 			}
+			l = append(l, "hstat-os "+pid)
 			cases = append(cases, corr.Case{Lines: l})
 		}
 		// listings with every page size
